@@ -16,6 +16,7 @@ import collections
 from .. import core
 from .. import structworld as W
 from .. import struct_props as S
+from .. import struct_api_gen as api
 from ..impl import mx, close_all, quiet
 
 CFG = {
@@ -227,6 +228,7 @@ def run(ctx, out):
         if len([f for f in out.failures if not f.get("key")]) >= 6:
             break
     stats["clash_family_refused"] = refused
+    api.run_struct(ctx, out, stats, H, CFG, S.run_one)
     out.coverage["evaluations"] += len(fam)
     fam2 = S.refusal_family()
     refused2 = S.run_family(out, stats, fam2, H, CFG, "refusal_family")
